@@ -576,6 +576,66 @@ fn rich_rules() -> Vec<String> {
     ]
 }
 
+/// part 2d: ambient state. The engine logs through `tracing`; whether a subscriber is installed
+/// (and at which level) is not an input of loading, optimising or matching.
+struct EverythingEnabled;
+impl tracing::Subscriber for EverythingEnabled {
+    fn enabled(&self, _: &tracing::Metadata<'_>) -> bool {
+        true
+    }
+    fn new_span(&self, _: &tracing::span::Attributes<'_>) -> tracing::span::Id {
+        tracing::span::Id::from_u64(1)
+    }
+    fn record(&self, _: &tracing::span::Id, _: &tracing::span::Record<'_>) {}
+    fn record_follows_from(&self, _: &tracing::span::Id, _: &tracing::span::Id) {}
+    fn event(&self, _: &tracing::Event<'_>) {}
+    fn enter(&self, _: &tracing::span::Id) {}
+    fn exit(&self, _: &tracing::span::Id) {}
+}
+
+fn part2d(spec: &RuleSpec) -> Stats {
+    let mut st = Stats::default();
+    let yaml = spec.yaml();
+    let docs = gen::docs_for(spec, 1, 24);
+    let observe_all = |y: &str| -> Option<String> {
+        let r = eng::load(y).ok()?;
+        let mut out = String::new();
+        for sw in [0u8, 0b1111, 0b1010] {
+            let o = eng::optimise_with(&r, sw, &[]).ok()?.0;
+            out.push_str(&eng::canon(&o));
+            out.push('#');
+            for d in &docs {
+                out.push(match eng::val3(&o, d) {
+                    Ok(1) => 'T',
+                    Ok(0) => 'F',
+                    Ok(_) => 'M',
+                    Err(_) => 'P',
+                });
+            }
+            out.push('|');
+        }
+        Some(out)
+    };
+    let plain = observe_all(&yaml);
+    let traced = tracing::subscriber::with_default(EverythingEnabled, || observe_all(&yaml));
+    st.states += 2;
+    st.traces += 2;
+    st.evaluations += 2 * docs.len() as u64 * 3;
+    st.transitions += 2;
+    let loaded = plain.is_some();
+    if plain != traced {
+        st.push_violation(Violation {
+            signature: "result-depends-on-whether-a-tracing-subscriber-is-installed".into(),
+            witness: format!("without a subscriber {:?} ; with an all-levels subscriber {:?} ; rule {}", plain.map(|p| p.chars().take(160).collect::<String>()), traced.map(|p| p.chars().take(160).collect::<String>()), one_line(&yaml)),
+            replay: json!({"kind":"load","rule_yaml":yaml,"note":"compare under tracing::subscriber::with_default(<all levels enabled>)"}),
+        });
+    }
+    if loaded {
+        st.nontrivial += 1;
+    }
+    st
+}
+
 // ---------------------------------------------------------------------------------------------
 // part 3: schedules - all interleavings of matches() calls at callback granularity
 
@@ -1165,6 +1225,13 @@ pub fn run(tier: Tier) -> i32 {
         }
     }
     rep.stats.count("part2c_rules", seq_rules.len() as u64);
+    // part 2d: with and without a tracing subscriber
+    let amb_specs: Vec<RuleSpec> = if th { gen::universe(0).into_iter().step_by(3).collect() } else { gen::universe_quick().into_iter().step_by(7).collect() };
+    let parts: Vec<Stats> = amb_specs.par_iter().map(part2d).collect();
+    for p in parts {
+        rep.stats.merge(p);
+    }
+    rep.stats.count("part2d_rules", amb_specs.len() as u64);
     rep.extra.insert("api_history_operations".into(), json!(API_OPS));
     rep.extra.insert("api_history_depth".into(), json!(api_depth));
     // part 3 (sequential: shuttle owns its thread)
